@@ -184,6 +184,8 @@ def problem(draw, tier, premise=False, max_w=None, max_v=None):
     return {"machine": m, "vertices": vertices, "nets": nets,
             "constraints": constraints,
             "vkind": draw(st.sampled_from(pr.VERTEX_KINDS)),
+            # constraints given as instances of the caller's own subclasses
+            "subcls": draw(st.integers(0, 4)) == 0,
             "seed": draw(st.integers(0, 10 ** 6))}
 
 
@@ -201,6 +203,11 @@ def build_problem(case):
     nets = [Net(vobj[n["source"]], [vobj[s] for s in n["sinks"]], n["weight"])
             for n in case["nets"]]
     cons = []
+    sub = case.get("subcls", False)
+    LocationConstraint = pr.constraint_class(LocationConstraint, sub)
+    SameChipConstraint = pr.constraint_class(SameChipConstraint, sub)
+    ReserveResourceConstraint = pr.constraint_class(ReserveResourceConstraint,
+                                                    sub)
     for c in case["constraints"]:
         if c["type"] == "loc":
             cons.append(LocationConstraint(vobj[c["v"]], tuple(c["chip"])))
@@ -214,13 +221,13 @@ def build_problem(case):
             from rig.place_and_route.constraints import \
                 RouteEndpointConstraint
             from rig.routing_table import Routes
-            cons.append(RouteEndpointConstraint(vobj[c["v"]],
-                                                Routes(c["route"])))
+            cons.append(pr.constraint_class(RouteEndpointConstraint, sub)(
+                vobj[c["v"]], Routes(c["route"])))
         elif c["type"] == "align":
             from rig.place_and_route.constraints import \
                 AlignResourceConstraint
-            cons.append(AlignResourceConstraint(pr.resource(c["res"]),
-                                                c["alignment"]))
+            cons.append(pr.constraint_class(AlignResourceConstraint, sub)(
+                pr.resource(c["res"]), c["alignment"]))
     return vr, nets, machine, cons, vobj
 
 
